@@ -44,13 +44,13 @@ struct CheckDef {
 };
 
 static std::vector<CheckDef> g_checks = {
-        { "C01", "exploration", { { "hashmgr", 5 }, { "l2mgr", 1 }, { "hashfill", -20 }, { "hashendure", 0, 28 } }, 30000, 3000000, 50, 900, false, false,
+        { "C01", "exploration", { { "hashmgr", 5 }, { "l2mgr", 1 }, { "hashfill", -32 }, { "hashendure", 0, 28 } }, 30000, 3000000, 50, 900, false, false,
           "cases: seeded plans (algorithm x family x client count x segmentation x submit/flush/restart interleaving; 1 in 12 with a giant segment "
           "kept in flight); thorough adds 28 endurance runs (one long-lived manager, 20-36 GiB through the flush path); "
           "distinct_nontrivial: distinct manager states reached, state = hash(algorithm, family, |in flight|, sorted remaining-block buckets "
           "of in-flight jobs, #idle, #complete clients, last op kind) at which at least one job was in flight",
           { "reference hashes trusted after start-up vector self-check", "sampling, not proof" } },
-        { "C06", "exploration", { { "hashmgr", 5 }, { "l2mgr", 1 }, { "hashgiant", -28 }, { "hashfill", -20 } }, 30000, 3000000, 50, 900, false, false,
+        { "C06", "exploration", { { "hashmgr", 5 }, { "l2mgr", 1 }, { "hashgiant", -28 }, { "hashfill", -32 } }, 30000, 3000000, 50, 900, false, false,
           "cases: seeded plans over submit/flush/drain/restart/zero-length-LAST histories on every (algorithm, family), 1 in 12 with a giant "
           "(2^30..2^32-1 byte) segment kept in flight, plus 28 runs (one per pair) that flush a single 2^30-byte ENTIRE segment to the end; "
           "distinct_nontrivial: distinct manager states (as C01) reached with a conservation invariant evaluated",
